@@ -25,7 +25,7 @@ pub fn prop() -> Prop {
          is Ok and equal (PartialEq) to the original, and printing the re-parsed value gives the identical text. \
          Non-trivial: the case has a named fragment or an inline fragment with a type condition; distinct by text+config.",
     )
-    .random("roundtrip", check, |t| if t == Tier::Quick { 150_000 } else { 1_500_000 }, |t| if t == Tier::Quick { 700 } else { 1000 })
+    .random("roundtrip", check, |t| if t == Tier::Quick { 400_000 } else { 1_500_000 }, |t| if t == Tier::Quick { 700 } else { 1000 })
     .case_timeout(120)
     .assumptions(&[
         "indent prefixes are whitespace-only strings (spaces/tabs), as the property states",
